@@ -367,6 +367,28 @@ func (g *G) MultipartRequest() (util.Message, *spec.Node) {
 	for g.Avoid[fmt.Sprintf("mp_request=%d", kind)] {
 		kind = g.Pick("mp_type_again", 6)
 	}
+	if !g.Avoid["mp_request=raw"] && g.Chance("mp_other_type", 1, 6) {
+		// the types the library has no body type for (group, meter, table-features, port-desc, experimenter ...):
+		// Body is any util.Message, a caller supplies the body bytes in a util.Buffer (empty for the body-less ones)
+		ty := []uint16{6, 7, 8, 9, 10, 11, 12, 13, 0xffff}[g.Pick("mp_other", 9)]
+		var body []byte
+		switch ty {
+		case 6, 9, 10: // ofp_group_stats_request / ofp_meter_multipart_request: 8 bytes
+			body = g.Bytes("mp_other_body", 8)
+		case 12: // table features: empty (read) or a list of ofp_table_features (multiples of 8)
+			body = g.Bytes("mp_other_body", 8*g.Int("mp_tf_words", 0, 24))
+		case 0xffff:
+			body = g.Bytes("mp_other_body", 8+g.Int("mp_exp_len", 0, 40))
+		}
+		m.Type = ty
+		m.Body = util.NewBuffer(cp(body))
+		n.Set("mp_type", uint64(ty))
+		if len(body) > 0 {
+			n.Add(spec.N("mpreq.raw").With(spec.B("data", body)))
+		}
+		g.Label(fmt.Sprintf("mp_request=%d(raw body)", ty))
+		return m, n
+	}
 	switch kind {
 	case 0:
 		m.Type = of.MultipartType_Desc
